@@ -36,7 +36,7 @@ type recDCS struct {
 
 func (d *recDCS) cut() bool { return !d.zk.Established(d.name) }
 
-func short(v any) string { return shortN(v, 600) }
+func short(v any) string { return shortN(v, 4000) }
 
 func shortN(v any, n int) string {
 	b, err := json.Marshal(v)
@@ -179,7 +179,7 @@ func (d *recDCS) Get(p string, dest any) error {
 	}
 	d.post()
 	if err == nil {
-		d.rec("Get", p, "", shortN(dest, 2500), nil)
+		d.rec("Get", p, "", shortN(dest, 4000), nil)
 	} else {
 		d.rec("Get", p, "", "", err)
 	}
